@@ -179,6 +179,19 @@ pub fn extract_item(ctx: &mut Ctx, blk: &Block) -> Result<(String, Value), Strin
             return Err("keep= on a struct without named fields".into());
         }
     }
+    // N5 (data side): `retype=field:Type` replaces the declared type of a field (e.g. Mutex<Cache> -> Cache)
+    if let (Some(rt), syn::Item::Struct(st)) = (blk.opt("retype"), it) {
+        for spec in rt.split(',') {
+            let (fname, fty) = spec.split_once(':').ok_or("retype=field:Type")?;
+            let f = st
+                .fields
+                .iter()
+                .find(|f| f.ident.as_ref().map(|i| i == fname).unwrap_or(false))
+                .ok_or(format!("lost anchor: struct {name} has no field `{fname}`"))?;
+            let (s0, e0) = offs.range(src, f.ty.span());
+            ed.replace(s0, e0, fty, "N5", &format!("field `{fname}`: declared type replaced by {fty} (lock erased)"));
+        }
+    }
     struct V<'a, 's> {
         ed: &'a mut Edits<'s>,
         offs: &'a Offsets,
@@ -510,6 +523,9 @@ pub fn extract_fn(ctx: &mut Ctx, blk: &Block) -> Result<(String, Value), String>
             let mut b = Bindings::new();
             if pattern::matches(&pat, ts, &mut b) {
                 let (s0, e0) = offs.range(src, sp);
+                if ed.list.iter().any(|e| e.start <= s0 && e0 <= e.end && e.end > e.start) {
+                    return; // an earlier (more specific) rewrite already covers this expression
+                }
                 let whole = &src[s0..e0];
                 let text = subst(&repl, whole, &b, src, &offs);
                 ed.replace(s0, e0, &text, rule, &format!("pattern `{pat_s}`"));
